@@ -878,7 +878,7 @@ func (w *xlWorld) translateFunc(repo string, p *xlPkg, f *xlFunc, fd *ast.FuncDe
 	sig := fn.Type().(*types.Signature)
 	x := &xl{w: w, p: p, f: f, fd: fd, names: map[types.Object]string{}, used: map[string]bool{}, flat: map[string]string{},
 		opaque: map[string]string{}, touched: map[string]bool{}}
-	x.monadic = x.scanMonadic(fd.Body)
+	x.monadic = x.scanMonadic(fd.Body) || f.Rec
 	var params []xlParam
 	addParam := func(v *types.Var) error {
 		t, err := w.leanType(v.Type())
@@ -922,6 +922,15 @@ func (w *xlWorld) translateFunc(repo string, p *xlPkg, f *xlFunc, fd *ast.FuncDe
 	if err != nil {
 		return "", err
 	}
+	if f.Rec {
+		// the self-call `rec_` is captured by loops like an opaque parameter (translate_rec.go)
+		var ts []string
+		for _, p := range params {
+			ts = append(ts, p.typ)
+		}
+		x.used[xlRecName] = true
+		x.opaquePs = append(x.opaquePs, xlParam{xlRecName, "(" + strings.Join(append(ts, "Go.Res "+retT), " → ") + ")"})
+	}
 	k := &cont{
 		ret: func(v string) string { return x.pureWrap(v) },
 		fall: func() ([]string, error) {
@@ -939,6 +948,9 @@ func (w *xlWorld) translateFunc(repo string, p *xlPkg, f *xlFunc, fd *ast.FuncDe
 		if _, ok := x.opaque[o]; !ok {
 			return "", fmt.Errorf("opaque callee %s is not called", o)
 		}
+	}
+	if f.Rec {
+		return x.emitRec(fn, params, retT, body)
 	}
 	all := append(append(append([]xlParam{}, x.opaquePs...), x.flatPs...), params...)
 	var b strings.Builder
@@ -963,7 +975,11 @@ func (w *xlWorld) translateFunc(repo string, p *xlPkg, f *xlFunc, fd *ast.FuncDe
 	b.WriteString("\n")
 	w.done[fn] = &xlDone{lean: f.Lean, monadic: x.monadic, nparams: len(all)}
 	if len(x.opaquePs)+len(x.flatPs) > 0 {
-		w.done[fn].nparams = -1 // cannot be called from translated code
+		w.done[fn].nparams = -1 // cannot be called from translated code …
+	}
+	if f.Flatten && len(x.opaquePs) == 0 {
+		// … except by a flattened method on the same receiver (translate_rec.go)
+		w.done[fn].flatKeys, w.done[fn].flatTypes = x.flatKeyList()
 	}
 	return b.String(), nil
 }
